@@ -41,14 +41,14 @@ fn run_one(scv: &Value, sh: &Shared) -> Value {
     match run_contained(120, || scen::execute(&sc, sh)) {
         ChildEnd::Report(v) => v,
         ChildEnd::Signal(s) => json!({
-            "violations": [{"tag": format!("died-with-signal[{}]", signal_name(s)), "props": scen::props_for(&sc.family), "detail": format!("the simulated process was killed by {} (progress note {} {} {})", signal_name(s), sh.get(0), sh.get(1), sh.get(2))}],
+            "violations": [{"tag": format!("died-with-signal[{}]", signal_name(s)), "props": scen::props_for(&sc.family, &sc.profile), "detail": format!("the simulated process was killed by {} (progress note {} {} {})", signal_name(s), sh.get(0), sh.get(1), sh.get(2))}],
             "digest": format!("{:016x}", 0xDEADu64 + s as u64), "died": signal_name(s)}),
         ChildEnd::Exit(3) => {
             // deadlock / step overrun: the child left its report in the shared page
             let steps = sh.get(8);
             let kind = if sh.get(9) == 1 { "step-budget-exhausted" } else { "deadlock" };
             json!({
-                "violations": [{"tag": format!("liveness[{kind}]"), "props": scen::props_for(&sc.family), "detail": format!("{kind} after {steps} scheduler steps: no thread can make progress although all faults have been injected")}],
+                "violations": [{"tag": format!("liveness[{kind}]"), "props": scen::props_for(&sc.family, &sc.profile), "detail": format!("{kind} after {steps} scheduler steps: no thread can make progress although all faults have been injected")}],
                 "digest": format!("{:016x}", 0xD1Du64 + steps), "steps": steps})
         }
         ChildEnd::Exit(c) => json!({"violations": [], "harness_error": format!("child exit {c}")}),
